@@ -2,21 +2,23 @@
 # Parallel sensitivity run: like tools/mutants.sh, but every job works on private copies of /repo
 # and /verif that are bind-mounted over /repo and /verif in a private mount namespace, so N
 # mutants are built and checked at the same time and /repo itself is never touched.
+# PM_VERIF_SRC=<dir>: take the checks from that copy of /verif (e.g. a development worktree) instead of /verif.
 # Usage: tools/pmutants.sh [-j N] [patch ...]        (needs root: unshare -m)
 J=5
+SRC=${PM_VERIF_SRC:-/verif}
 if [ "$1" = "-j" ]; then J=$2; shift 2; fi
 cd /verif || exit 2
 [ $# -gt 0 ] || set -- mutants/*.patch seeded/*/patch.diff
 BASE=/tmp/pm
 mkdir -p $BASE
 list=$BASE/list.txt; : > $list
-for p in "$@"; do [ -f "$p" ] && realpath "$p" >> $list; done
+for p in "$@"; do [ -f "$p" ] && realpath "$p" | sed "s|^$SRC/|/verif/|" >> $list; done
 total=$(wc -l < $list)
 : > $BASE/results.txt
 worker() {
     i=$1
     rsync -a --delete --exclude target /repo/ $BASE/repo$i/
-    rsync -a --delete --exclude target --exclude .git /verif/ $BASE/verif$i/
+    rsync -a --delete --exclude target --exclude .git $SRC/ $BASE/verif$i/
     [ -d $BASE/verif$i/target ] || cp -a /verif/target $BASE/verif$i/target
     n=0
     while read -r p; do
